@@ -427,6 +427,15 @@ def directed_streams(rng):
         toks += [("match", 20, L - 1), ("match", 5, L), ("lit", 7), ("match", 258, L - 1), ("match", 9, 1), ("match", 11, 2),
                  ("match", 4, L - 1), ("match", 3, L), ("lit", 9), ("match", 70, L - 2)]
         mk("ring%d_edge" % L, [("fixed", toks, {})])
+    # a literal followed by a length-258 match starting exactly 258, 259 or 260 bytes before the end of the ring (the
+    # fast loop needs 259 bytes of room for one iteration); positioned by a stored block
+    for L in (1024, 32768):
+        for kk in (2, 3, 4):
+            for ee in (0, 1):
+                pre = [("lit", (i * 29 + 11) & 255) for i in range(L - 258 - kk - ee)]
+                tail = [("lit", (i * 5 + 1) & 255) for i in range(40)]
+                mk("ringend258_L%d_k%d_e%d" % (L, kk, ee),
+                   [("stored", pre, {}), ("fixed", [("lit", 70 + i) for i in range(kk)] + [("lit", 88), ("match", 258, 1)] + tail + [("match", 258, 7)] + tail, {})])
     # a long match, then a short stored block, then more: output-full suspensions inside the match land within a
     # few input bytes of the stored block's LEN/NLEN
     for n in (3, 20, 41):
